@@ -512,6 +512,111 @@ func init() {
 		}
 		return FalseT
 	})
+	// sync.Map modelled by an engine map kept in a side table keyed by the receiver
+	smap := func(in *Interp, recv Value) *Map {
+		pv := recv.(*Value)
+		if in.syncMaps == nil {
+			in.syncMaps = map[*Value]*Map{}
+		}
+		m, ok := in.syncMaps[pv]
+		if !ok {
+			m = &Map{Index: map[string]int{}}
+			in.syncMaps[pv] = m
+		}
+		return m
+	}
+	reg("(*sync.Map).Load", func(in *Interp, fr *frame, fn *ssa.Function, args []Value) Value {
+		m := smap(in, args[0])
+		if i := in.mapFind(m, args[1]); i >= 0 {
+			return tuple(m.Vals[i], TrueT)
+		}
+		return tuple(Iface{}, FalseT)
+	})
+	reg("(*sync.Map).Store", func(in *Interp, fr *frame, fn *ssa.Function, args []Value) Value {
+		in.mapSet(smap(in, args[0]), args[1], args[2])
+		return nil
+	})
+	reg("(*sync.Map).Delete", func(in *Interp, fr *frame, fn *ssa.Function, args []Value) Value {
+		in.mapDelete(smap(in, args[0]), args[1])
+		return nil
+	})
+	reg("(*sync.Map).LoadOrStore", func(in *Interp, fr *frame, fn *ssa.Function, args []Value) Value {
+		m := smap(in, args[0])
+		if i := in.mapFind(m, args[1]); i >= 0 {
+			return tuple(m.Vals[i], TrueT)
+		}
+		in.mapSet(m, args[1], args[2])
+		return tuple(args[2], FalseT)
+	})
+	reg("(*sync.Map).LoadAndDelete", func(in *Interp, fr *frame, fn *ssa.Function, args []Value) Value {
+		m := smap(in, args[0])
+		if i := in.mapFind(m, args[1]); i >= 0 {
+			v := m.Vals[i]
+			in.mapDelete(m, args[1])
+			return tuple(v, TrueT)
+		}
+		return tuple(Iface{}, FalseT)
+	})
+	reg("(*sync.Map).Range", func(in *Interp, fr *frame, fn *ssa.Function, args []Value) Value {
+		m := smap(in, args[0])
+		keys := append([]Value(nil), m.Keys...)
+		vals := append([]Value(nil), m.Vals...)
+		for i := range keys {
+			r := in.call(fr, args[1], []Value{keys[i], vals[i]}, nil)
+			if !in.branch(r.(*Term)) {
+				break
+			}
+		}
+		return nil
+	})
+	// time.NewTicker: a ticker whose channel holds exactly one tick
+	reg("time.NewTicker", func(in *Interp, fr *frame, fn *ssa.Function, args []Value) Value {
+		tt := fn.Signature.Results().At(0).Type().(*types.Pointer).Elem()
+		tv := zero(tt).(Struct)
+		st := tt.Underlying().(*types.Struct)
+		for i := 0; i < st.NumFields(); i++ {
+			if st.Field(i).Name() == "C" {
+				et := st.Field(i).Type().Underlying().(*types.Chan).Elem()
+				tv[i] = &Chan{Cap: 1, Buf: []Value{zero(et)}}
+			}
+		}
+		var v Value = tv
+		return &v
+	})
+	reg("(*time.Ticker).Stop (*time.Ticker).Reset (*time.Timer).Stop (*time.Timer).Reset", func(in *Interp, fr *frame, fn *ssa.Function, args []Value) Value {
+		return resultZero(fn)
+	})
+	// vrt.UntilBlocked(f): runs f until it returns or would block on a channel operation
+	reg(vrtPath+".UntilBlocked", func(in *Interp, fr *frame, fn *ssa.Function, args []Value) (res Value) {
+		saved := in.cur
+		depth := in.depth
+		defer func() {
+			if r := recover(); r != nil {
+				if ab, ok := r.(*abort); ok && ab.kind == "blocked" {
+					in.cur = saved
+					in.depth = depth
+					res = TrueT
+					return
+				}
+				panic(r)
+			}
+		}()
+		in.call(fr, args[0], nil, nil)
+		return FalseT
+	})
+	reg("maps.clone", func(in *Interp, fr *frame, fn *ssa.Function, args []Value) Value {
+		i := args[0].(Iface)
+		m, _ := i.V.(*Map)
+		if m == nil {
+			return i
+		}
+		nm := &Map{Keys: append([]Value(nil), m.Keys...), Vals: make([]Value, len(m.Vals)), KT: m.KT}
+		for k, v := range m.Vals {
+			nm.Vals[k] = copyVal(v)
+		}
+		nm.reindex()
+		return Iface{T: i.T, V: nm}
+	})
 	reg("strconv.Itoa", func(in *Interp, fr *frame, fn *ssa.Function, args []Value) Value {
 		t := bv(args[0])
 		if t.IsConst() {
